@@ -557,6 +557,10 @@ def prog_misc2(e, which):
         return T('\\def\\mya{\\def\\myb{\\def\\myc####1{[####1]}}}\\mya\\myb\\myc ') + [P()]
     if which == 'hash-parameterless-literal':
         return T('\\def\\mya{') + [P()] + T('##') + [P()] + T('}\\def\\myb#1#2#3{[#3#1]}\\expandafter\\myb\\mya')
+    if which == 'delimited-group-stripped':     # a delimited argument that is exactly one group loses its braces: the inner macro takes one token of it
+        return T('\\def\\myb#1{[#1]}\\def\\mya#1.{\\myb#1}\\mya{') + [P(), P()] + T('}.') + [P()]
+    if which == 'delimited-two-groups-kept':
+        return T('\\def\\myb#1{[#1]}\\def\\mya#1.{\\myb#1}\\mya{') + [P(), P()] + T('}{') + [P()] + T('}.') + [P()]
     if which == 'call-last-token':
         return T('\\def\\mya{') + [P()] + T('}') + [P()] + T('\\mya')
     raise AssertionError(which)
@@ -565,7 +569,7 @@ def prog_misc2(e, which):
 MISC2 = ['call-in-delimited-arg', 'macro-as-arg', 'optional-with-group', 'four-args-optional', 'newcommand-star', 'renew-optional', 'gdef-in-body', 'def-order',
          'two-token-delimiter', 'brace-around-param', 'csname-call-with-arg', 'expandafter-over-args', 'call-last-token', 'expandafter-reuse', 'expandafter-reuse2', 'renew-def', 'renew-let',
          'renew-newcommand-noargs', 'def-after-newcommand', 'let-char-redef', 'let-char-relet',
-         'hash-parameterless-newcommand', 'hash-parameterless-def', 'hash-parameterless-deep', 'hash-parameterless-literal']
+         'delimited-group-stripped', 'delimited-two-groups-kept', 'hash-parameterless-newcommand', 'hash-parameterless-def', 'hash-parameterless-deep', 'hash-parameterless-literal']
 
 
 def h_misc2(e, which):
